@@ -38,7 +38,7 @@ def schema():
          F("by", 5, "bytes")]
     types = {"Inner": inner, "A": a, "A_old": [a[0], a[3]], "B": [F("x", 1, "fixed64"), F("n", 2, "string", "repeated")],
              "E": [F("unused", 15, "int32")]}
-    return {"types": types, "enums": {"E0": gen.ENUM_E}}
+    return {"types": types, "enums": {"E0": [["E0_ZERO", 0], ["E0_ONE", 1]]}}
 
 
 READERS = {"A": ["A", "A_old"], "B": ["B", "B"], "E": ["E", "A_old"]}
